@@ -28,6 +28,7 @@ def run(ctx):
     ctx.rule('C19.FEATURES', lambda: rule_features(ctx), 3)
     ctx.rule('C19.BUCKET', lambda: rule_bucket(ctx), 2)
     ctx.rule('C19.TASKRESULT', lambda: rule_task_results(ctx), 1)
+    ctx.rule('C19.VERIFIED', lambda: rule_verified(ctx), 1)
 
 
 def rule_filter(ctx):
@@ -288,6 +289,45 @@ def rule_public(ctx):
               'a named host is valid iff it is a syntactically valid hostname; an IP iff global-or-private and neither multicast nor unspecified',
               'is_valid does not test hostname syntax / address class as required', loc=ctx.loc(g, g.node))
     return 2
+
+
+def rule_verified(ctx):
+    """A peer is marked good only when _verify_peer ran to completion.  Between the awaited verification and the statement
+    that records success nothing may absorb an abnormal end of the verification: a context manager that swallows a timeout
+    or a cancellation (ignore_after / ignore_at / move_on_after / suppress) lets control fall through to `is_good = True`
+    although no check was finished - an unverified (possibly hostile) peer becomes "recently good" and is advertised."""
+    SWALLOW = ('ignore_after', 'ignore_at', 'move_on_after', 'move_on_at', 'suppress')
+    vp = ctx.func('peers', 'PeerManager._verify_peer')
+    n = 0
+    for f in ctx.repo.funcs.values():
+        for c in q.own_calls(f):
+            t = ctx.res.resolve_ref(c.func, f)
+            if t is None or t.key != vp.key:
+                continue
+            n += 1
+            st = q.stmt(c)
+            bad = []
+            for p, _f in q.enclosing_chain(st, f.node):
+                if isinstance(p, (ast.With, ast.AsyncWith)):
+                    for it in p.items:
+                        ce = it.context_expr
+                        if isinstance(ce, ast.Call) and norm(ce.func).split('.')[-1] in SWALLOW:
+                            bad.append(norm(ce))
+                if isinstance(p, ast.Try):
+                    if any(x is st or any(y is st for y in ast.walk(x)) for x in p.body):
+                        for h in p.handlers:
+                            names = [norm(x).split('.')[-1] for x in ((h.type.elts if isinstance(h.type, ast.Tuple) else [h.type]) if h.type else ['*'])]
+                            # a handler that neither re-raises nor leaves the success path
+                            leaves = any(isinstance(x, (ast.Raise, ast.Return, ast.Continue, ast.Break)) for x in walk_own(h))
+                            sets_bad = any(isinstance(x, ast.Assign) and norm(x.targets[0]) in ('is_good',) and norm(x.value) == 'False' for x in walk_own(h))
+                            if not leaves and not sets_bad and any(nm in ('*', 'BaseException', 'Exception', 'CancelledError', 'TimeoutError', 'TaskTimeout') for nm in names):
+                                pass      # decided by the success flag below
+            awaited = isinstance(getattr(c, '_parent', None), ast.Await)
+            ctx.check(awaited and not bad, 'C19.VERIFIED', ctx.key(f, st, 'verification runs to completion'),
+                      'the verification is awaited with nothing around it that swallows a timeout or cancellation',
+                      f'the verification runs under {bad or "no await"}: when it is cut short control falls through to the code that '
+                      'records the peer as good', loc=ctx.loc(f, c))
+    return n
 
 
 def peer_mutable_attrs(ctx):
